@@ -9,12 +9,18 @@ CONFIG = dict(
                "support answers, service-retired notifications (unknown names, repeats, late ones), StopNode completions and time-outs: "
                "published state non-decreasing; retire accepted only in working/retiring with every service having answered ok, and then "
                "every service is told; retired exactly when all reported; exit only when retired; StopNode at most once and exactly once "
-               "after an accepted exit; refused/unknown commands change nothing. The model is tied to the Go code on every run: the real "
+               "after an accepted exit; refused/unknown commands change nothing; a failed stop is final (exiting for ever, exit refused). "
+               "The path to the cluster is modelled too: App.UpdateNodeState hands each state to the provider exactly once and ignores "
+               "its error, and for every fault script of the provider the states the cluster is shown are an order-preserving selection "
+               "of the node's own sequence (so still non-decreasing), refused ones are lost for good (never retried or repeated), and the "
+               "monitor accepts the model's trace under every fault script. The model is tied to the Go code on every run: the real "
                "NodeCtrl.Start + AdminService + node.admin API entries are driven through real ctrl.cmd / ctrl.servicecmd requests with "
                "scripted hosted services (raw actors and real NodeServices using node/builtin/ctrlcmd.go and app.NotifyServiceRetired), "
                "and the two observation streams are compared op by op.",
     level_note="Trusted: Lean kernel, harness/driver line protocol, synctest virtual clock. Modelled, not verified: proto.actor delivery, "
-               "the request layer's answer-or-timeout, StopNode completing at most once per call, distinct service names. The theorems are "
+               "the request layer's answer-or-timeout, StopNode completing at most once per call, distinct service names, the cluster provider as a fault script (accept / refuse each "
+               "publication). Not modelled: the 3 s between Start and the support probe, a panicking provider, the real App.StopNode / baseapp "
+               "module stop (three completion regimes are assumed instead). The theorems are "
                "about the model; the differential run ties it to the code on sampled (thorough: bounded-exhaustive) histories only.",
     lean_targets=["Cell2v.Props.C12", "modeld_c12"],
     driver="modeld_c12",
@@ -22,6 +28,9 @@ CONFIG = dict(
     audit="Audit/C12.lean",
     required_theorems=["state_monotone", "retire_guard", "retired_iff_all_reported", "retired_only_after_all_reported",
                        "exit_guard", "stop_at_most_once", "stop_exactly_once_after_exit", "refused_changes_nothing",
+                       "cluster_view_monotone", "provider_called_once_per_update", "reliable_provider_sees_all",
+                       "cluster_view_append", "model_passes_monitor_lossy", "monitor_sequence_clause_no_loss",
+                       "monitor_flags_stale_retry", "failed_stop_is_final", "exit_without_retire",
                        "unknown_service_ignored", "web_retire_same", "web_exit_same", "model_passes_monitor",
                        "d3_state_regression", "d3_stopnode_twice"],
     harness_pkg="./c12",
@@ -33,14 +42,14 @@ CONFIG = dict(
                      dict(name="seed2", env={"VERIF_N": "60000"}, seed_offset=1000, timeout=1500),
                      dict(name="exh", test="TestExhaustive", timeout=1500)],
     },
-    trivial=r"^(bad-op|r=(refused|none|-|ack:none|info) pub= upd= stop=0 sent= st=working)$",
+    trivial=r"^(bad-op|r=(refused|none|-|ack:none|info) pub= upd= lost= stop=0 sent= st=working)$",
     rule="cases generated from one PRNG (VERIF_SEED): hosted service sets of size 0-4 (scripted raw actors whose support answer is an "
-         "explicit op, real NodeServices answering ok / no / "" (listener ignoring queryretire) / without listener, services unresolvable at start) x node service list read by the real App.FilterSelfServices from a generated config dir with unconfigured names first/middle/last x StopNode regime of the recording INodeApp (completion later through an op / inside the call with true / with false) x provider latency (the real App.UpdateNodeState with a stub cluster provider whose k-th update takes 0-500 ms of virtual time: none / random / first slow then fast) x histories of up to 14 ops over "
+         "explicit op, real NodeServices answering ok / no / "" (listener ignoring queryretire) / without listener, services unresolvable at start) x node service list read by the real App.FilterSelfServices from a generated config dir with unconfigured names first/middle/last x StopNode regime of the recording INodeApp (completion later through an op / inside the call with true / with false) x provider latency (the real App.UpdateNodeState with a stub cluster provider whose k-th update takes 0-500 ms of virtual time: none / random / first slow then fast) x provider faults (reset pf=: the k-th UpdateClusterState returns an error: the first / a random subset / all; in such cases the guided stream lets 40 s pass before and after the exit so that anything the node deferred fires) x histories of up to 14 ops over "
          "{stat, retire, exit, web_retire, web_exit, web_nodes, unknown commands, support answer ok/other by service i, s_i leaving / rejoining the node's member record in the real cluster directory behind the real App.GetService (unresolvable at retire time), the directory reflecting the published node state back (at once / on a reflect op; retire repeated after the reflection), retired by "
          "service i / unknown name / out-of-range index, other service commands, StopNode completion true/false, 40 s time-out}; two "
          "thirds of the cases follow the intended life cycle with random insertions, omissions and repetitions (so that exiting/exited "
          "are reached often), one third is uniformly random; thorough adds every history of length 6 over a 7-letter alphabet on two "
-         "scripted services. A case is non-trivial when something other than a refusal in state working was observed; "
+         "scripted services, and every history of length 5 over {retire, exit, ack, retired, stopdone, tick, web_retire} with the first / the second and fourth / every publication refused. A case is non-trivial when something other than a refusal in state working was observed; "
          "distinct = distinct (op, observation) pairs",
     trusted_base=[
         "Lean 4.33.0 kernel; axioms of every property theorem audited on each run (allowed: propext, Classical.choice, Quot.sound)",
@@ -53,6 +62,8 @@ CONFIG = dict(
         "every command, notification, query answer and StopNode completion runs on the admin service goroutine one at a time (actor model)",
         "INodeApp.StopNode invokes its completion callback at most once per call (later, or inside the call: both regimes are modelled and driven)",
         "only the order in which publications reach the provider is observed, not their latency (an ordered asynchronous publisher would not be flagged)",
+        "the cluster provider is a stub that follows a generated fault script (accept / return an error, after a latency); a refused publication is observed as `lost`. The shipped etcd provider (which currently never returns an error) is not executed; a nil provider (App.UpdateNodeState returns at once) is not driven",
+        "deferred work of the node is only seen if it fires within the 40 s steps of virtual time the generator inserts (op tick) before the case ends",
         "hosted service names are distinct; the node configuration does not change while the node runs",
         "the retire fan-out is best effort in the code (a service GetService cannot resolve at that moment is skipped): modelled as such, theorem retire_guard is conditional on resolvability",
         "a service 'declares support' by answering the controller's queryretire with exactly \"ok\" before the request times out (30 s)",
